@@ -93,6 +93,7 @@ func (p *qList) UnmarshalJSON(b []byte) error {
 type SkObs struct {
 	Variant string   `json:"variant"`
 	M       int      `json:"m"`
+	Opq     bool     `json:"opq"`
 	Empty   bool     `json:"empty"`
 	Count   int      `json:"count"`
 	Zero    int      `json:"zero"`
@@ -136,6 +137,7 @@ type SketchCfg struct {
 	QDen     int            `json:"qden"`
 	Mode     string         `json:"mode"`  // every | final
 	Proto    int            `json:"proto"` // protobuf path variant
+	Scales   []float64      `json:"scales,omitempty"` // scale factors of ChangeMap events, index = scale token
 	Aspects  map[string]bool `json:"aspects"`
 }
 
@@ -348,6 +350,18 @@ func (w *sketchWorld) apply(e *SkEvent) (errClass string, problem string) {
 			return "", "decoded sketch: " + p
 		}
 		return "", ""
+	case "ChangeMap":
+		s := w.sk[e.S-1]
+		slot := e.T - 1
+		scale := cfg.Scales[e.W]
+		nm := cfg.conc(e.V).spec.build()
+		prov := w.provider(slot)
+		if s.exact != nil {
+			w.sk[slot] = &realSketch{exact: s.exact.ChangeMapping(nm, prov, scale), m: e.V}
+		} else {
+			w.sk[slot] = &realSketch{plain: s.plain.ChangeMapping(nm, prov(), prov(), scale), m: e.V}
+		}
+		return "", ""
 	case "Concat":
 		t := w.sk[e.T-1]
 		omit := e.W == 1
@@ -512,6 +526,9 @@ func binOfRank(x int) (side, key int) {
 
 // compareSketch checks one real sketch against the prediction for the enabled aspects.
 func (w *sketchWorld) compareSketch(r *realSketch, p *SkObs) *skDiff {
+	if p.Opq {
+		return nil // result of a mapping change: bin-level content is not predicted (checked at the event, against the source)
+	}
 	cfg := w.cfg
 	q := float64(cfg.Q)
 	asp := cfg.Aspects
@@ -993,12 +1010,12 @@ func replaySketch(beh []SkStep, cfg *SketchCfg) (mm *SkMismatch) {
 		}
 		recv := cur.S
 		switch cur.Op {
-		case "Merge", "Copy", "EncDec", "DecodeNew", "Proto", "Concat":
+		case "Merge", "Copy", "EncDec", "DecodeNew", "Proto", "Concat", "ChangeMap":
 			recv = cur.T
 		}
 		var before []*skSnap
 		isDecode := cur.Op == "EncDec" || cur.Op == "DecodeNew" || cur.Op == "Proto" || cur.Op == "Concat"
-		if asp["pure"] || (asp["reweight"] && cur.Op == "Reweight") || (asp["refuse"] && beh[i].Err != "") || (asp["decode"] && isDecode) {
+		if asp["pure"] || (asp["reweight"] && cur.Op == "Reweight") || (asp["refuse"] && beh[i].Err != "") || (asp["decode"] && isDecode) || (cur.Op == "ChangeMap" && (asp["cm-stats"] || asp["cm"])) {
 			for _, r := range w.sk {
 				before = append(before, snapshot(r))
 			}
@@ -1034,6 +1051,13 @@ func replaySketch(beh []SkStep, cfg *SketchCfg) (mm *SkMismatch) {
 				return &SkMismatch{Step: step, Aspect: "refuse", What: fmt.Sprintf("%s(%+v) must be refused with %q but returned %q", cur.Op, *cur, want, ec), Tags: tags}
 			}
 		}
+		// slots holding non-dyadic weights (results of mapping changes) are compared on the reduced snapshot
+		opq := func(s int) bool {
+			if beh[i].Pred[s].Opq {
+				return true
+			}
+			return i > 0 && beh[i-1].Pred[s].Opq
+		}
 		// ---- differential aspects (real vs real) ----
 		if asp["refuse"] && want != "" {
 			// C13: a refused call leaves every observable aspect of every sketch as it was
@@ -1048,7 +1072,7 @@ func replaySketch(beh []SkStep, cfg *SketchCfg) (mm *SkMismatch) {
 			// C14: only the receiver of an event may change; a Read changes nothing; a copy answers like its original
 			for s := range w.sk {
 				if (s+1 != recv || cur.Op == "Read" || want != "") && s < len(before) {
-					if after := snapshot(w.sk[s]); !snapEqual(before[s], after) {
+					if after := snapshot(w.sk[s]); !snapEqualMode(before[s], after, opq(s)) {
 						tags["aspect"] = "pure"
 						return &SkMismatch{Step: step, Slot: s + 1, Aspect: "pure", What: fmt.Sprintf("slot %d is not the receiver of %s(%+v) but its answers changed:\nbefore: %s\nafter:  %s", s+1, cur.Op, *cur, before[s], after), Tags: tags}
 					}
@@ -1056,7 +1080,7 @@ func replaySketch(beh []SkStep, cfg *SketchCfg) (mm *SkMismatch) {
 			}
 			if cur.Op == "Copy" {
 				a, b := snapshot(w.sk[cur.S-1]), snapshot(w.sk[cur.T-1])
-				if !snapEqual(a, b) {
+				if !snapEqualMode(a, b, opq(cur.S-1) || opq(cur.T-1)) {
 					tags["aspect"] = "pure"
 					return &SkMismatch{Step: step, Slot: cur.T, Aspect: "pure", What: fmt.Sprintf("a fresh copy answers differently from its original:\noriginal: %s\ncopy:     %s", a, b), Tags: tags}
 				}
@@ -1108,6 +1132,16 @@ func replaySketch(beh []SkStep, cfg *SketchCfg) (mm *SkMismatch) {
 				return &SkMismatch{Step: step, Slot: recv, Aspect: "decode", What: fmt.Sprintf("%s into bounded stores: %s", cur.Op, d.What), Pred: &beh[i].Pred[recv-1], Tags: tags}
 			}
 		}
+		if cur.Op == "ChangeMap" && (asp["cm-stats"] || asp["cm"]) {
+			var srcPred *SkObs
+			if i > 0 {
+				srcPred = &beh[i-1].Pred[cur.S-1]
+			}
+			if d := w.checkChangeMap(cur, before[cur.S-1], srcPred, asp); d != "" {
+				tags["aspect"] = "cm"
+				return &SkMismatch{Step: step, Slot: recv, Aspect: "cm", What: fmt.Sprintf("ChangeMapping(%+v): %s", *cur, d), Tags: tags}
+			}
+		}
 		if asp["reweight"] && cur.Op == "Reweight" && want == "" && cur.Num != cur.Den {
 			if d := scaledSnapDiff(before[cur.S-1], snapshot(w.sk[cur.S-1]), float64(cur.Num)/float64(cur.Den)); d != "" {
 				tags["aspect"] = "reweight"
@@ -1145,7 +1179,7 @@ func replaySketch(beh []SkStep, cfg *SketchCfg) (mm *SkMismatch) {
 	if asp["pure"] {
 		for s := range w.sk {
 			a, b := snapshot(w.sk[s]), snapshot(wB.sk[s])
-			if !snapEqual(a, b) {
+			if !snapEqualMode(a, b, len(beh) > 0 && beh[len(beh)-1].Pred[s].Opq) {
 				return &SkMismatch{Step: step, Slot: s + 1, Aspect: "pure", What: fmt.Sprintf("slot %d: the same mutations with and without interleaved read-only calls lead to different answers:\nwith reads:    %s\nwithout reads: %s", s+1, a, b),
 					Tags: map[string]string{"outcome": "mismatch", "aspect": "pure"}}
 			}
